@@ -175,6 +175,32 @@ M("C19", "plain_advance_redraws", "ui/components/progress_indicator.py",
 M("C19", "exception_swallowed", "ui/components/progress_indicator.py",
   "            self._auto_thread.join()\n\n            raise\n", "            self._auto_thread.join()\n\n            return\n")
 
+# ---- C20 ------------------------------------------------------------------------------------
+M("C20", "empty_source_keyerror", "ui/components/exception_trace.py",
+  "                if current_type is None:\n                    # The source is empty (or could not be read)\n                    current_type = self.TOKEN_DEFAULT\n\n", "")
+M("C20", "token_error_escapes", "ui/components/exception_trace.py",
+  "        except (tokenize.TokenError, SyntaxError):\n            # The source cannot be tokenized", "        except ZeroDivisionError:\n            # The source cannot be tokenized")
+M("C20", "message_markup_unchecked", "ui/components/exception_trace.py",
+  "            _safe_markup(inspector.exception_message)\n", "            inspector.exception_message\n")
+M("C20", "marker_off_by_one", "ui/components/exception_trace.py",
+  "                if mark_line == i + 1:\n                    snippet = marker", "                if mark_line == i + 2:\n                    snippet = marker")
+M("C20", "numbering_from_zero", "ui/components/exception_trace.py",
+  '            line_number = "{:>{}}".format(i + 1, max_line_length)', '            line_number = "{:>{}}".format(i, max_line_length)')
+M("C20", "window_shifted", "ui/components/exception_trace.py",
+  "        offset = line - lines_before - 1\n", "        offset = line - lines_before\n")
+M("C20", "ignore_applies_at_debug", "ui/components/exception_trace.py",
+  "                and re.match(self._ignore, frame.filename)\n                and not io.is_debug()\n", "                and re.match(self._ignore, frame.filename)\n")
+M("C20", "ignore_never_applies", "ui/components/exception_trace.py",
+  "                and re.match(self._ignore, frame.filename)\n                and not io.is_debug()\n", "                and re.match(self._ignore, frame.filename)\n                and io.is_debug()\n")
+M("C20", "message_first_line_only", "ui/components/exception_trace.py",
+  '        ).replace("\\n", "\\n  ")\n', '        ).split("\\n")[0]\n')
+M("C20", "simple_prints_class_only", "ui/components/exception_trace.py",
+  '                    _safe_markup(str(self._exception), "<error>{}</error>")', '                    self._exception.__class__.__name__')
+M("C20", "ascii_symbols_always", "ui/components/exception_trace.py",
+  "        self._ui = self.UI[supports_utf8]", "        self._ui = self.UI[False]")
+M("C20", "leading_space_dropped", "ui/components/exception_trace.py",
+  "            if start[1] > current_col:\n                buffer += token_info.line[current_col : start[1]]", "            if start[1] > current_col + 1:\n                buffer += token_info.line[current_col : start[1]]")
+
 
 def run_one(m, runs):
     prop, name, path, old, new, expect = m
